@@ -211,15 +211,17 @@ pub fn run_case(c: &Case) -> Observed {
     let mut vm3 = mk_vm();
     let r2 = catch_unwind(AssertUnwindSafe(|| {
         let mapped = BytecodeMapped::try_from(bytes.clone()).map_err(|e| format!("{e:?}"))?;
-        let a = vm2.exec_bytecode(&mapped, access.clone(), &state2, &cost_fn2, limit).map_err(|e| format!("{e:?}"));
+        // errors are compared by position and class: WHICH failing child of a Compute is reported is up to rayon
+        let ek = |e: ExecError<String>| format!("{} {}", e.0, err_class(&e.1));
+        let a = vm2.exec_bytecode(&mapped, access.clone(), &state2, &cost_fn2, limit).map_err(ek);
         let borrowed = BytecodeMapped::try_from(&bytes[..]).map_err(|e| format!("{e:?}"))?;
-        let b = vm3.exec_bytecode(&borrowed, access.clone(), &state2, &cost_fn2, limit).map_err(|e| format!("{e:?}"));
+        let b = vm3.exec_bytecode(&borrowed, access.clone(), &state2, &cost_fn2, limit).map_err(ek);
         Ok::<_, String>((a, b))
     }));
     let same = |a: &Vm, b: &Vm| a.pc == b.pc && a.stack == b.stack && a.memory == b.memory && a.halt == b.halt && a.repeat == b.repeat && a.parent_memory == b.parent_memory;
     let mapped_same = match (&r, &r2) {
         (Ok(x), Ok(Ok((a, b)))) => {
-            let xs = x.as_ref().map_err(|e| format!("{e:?}"));
+            let xs = x.as_ref().map_err(|e| format!("{} {}", e.0, err_class(&e.1)));
             xs == a.as_ref().map(|g| g) .map_err(|e| e.clone()) && xs == b.as_ref().map_err(|e| e.clone()) && same(&vm, &vm2) && same(&vm, &vm3)
         }
         (Err(_), Err(_)) => true,
